@@ -25,8 +25,8 @@ def run(chk):
     items = []
     k = 0
     for cell in ("interval", "triangle", "quadrilateral", "tetrahedron"):
-        for var in range(4 if quick else 12):
-            if quick and cell == "tetrahedron" and var > 1:
+        for var in (range(5) if quick else range(20)):
+            if quick and cell == "tetrahedron" and var not in (0, 4):
                 continue
             items.append({"builder": "harness.corpus.realise_c05", "c05": {"cell": cell, "variant": var}, "seed": chk.seed * 31 + k,
                           "scalar": "float64", "ninputs": 1 if quick else 2, "geom": "affine", "max_entities": 2,
@@ -45,6 +45,10 @@ def run(chk):
             chk.violation(f"{lab}:original_coefficient_positions",
                           f"{lab}: original_coefficient_positions = {c5['positions']} but the coefficients that survive in the form are at {c5['expect_positions']}",
                           {"item": items[r["item"]]})
+        if c5.get("expect_constants") is not None and c5["constant_shapes"] != c5["expect_constants"]:
+            chk.violation(f"{lab}:constants",
+                          f"{lab}: the form descriptor lists constants of shapes {c5['constant_shapes']} but the form has "
+                          f"{c5['expect_constants']} (original constant order)", {"item": items[r["item"]]})
         A = np.array([complex(a, b) for a, b in m["A"]])
         Ap = np.array([complex(a, b) for a, b in c5["A_poisoned"]])
         for fl in c5["flags"]:
